@@ -233,5 +233,5 @@ fn cv_labels(fea: &str, tag: &str) -> Option<(String, Vec<String>)> {
     Some((feat, params))
 }
 
-pub const RULE: &str = "genome -> SynthFont with 0-2 axes (+ optional point axis), naming facet: family / style present or missing, styleMap family / style, preferred family / subfamily, postscript name, version; RIBBI and non-RIBBI styles; axis labels (English, only other languages, none; equal to family / style strings); 0-4 named instances whose style names are drawn from the family / style / full-name strings, axis label strings and fresh strings, with and without postscript names, at default and other locations; optional feature code with a stylistic set featureNames block registered under 1-3 language systems (one with a language-specific lookup). Checked: every name id referenced by fvar, STAT and GSUB feature parameters resolves to a non-empty Windows en-US record; id ranges (axes >= 256; instance subfamily 2/17 only at the default location, else 256..32767; postscript >= 256 or 0xFFFF); strings equal the source's axis labels, instance style names, postscript names and feature names; ids 1,2,3,4,5,6,16,17 equal the documented ufo2ft fallback chain in the classes where it is unambiguous; name/fvar/STAT/GSUB identical over 3 rebuilds. non-trivial = variable source with an instance named like the family or style string";
+pub const RULE: &str = "genome -> SynthFont with 0-2 axes (+ optional point axis), naming facet: family / style present or missing, styleMap family / style, preferred family / subfamily, postscript name, version; RIBBI and non-RIBBI styles; axis labels (English, only other languages, none; equal to family / style strings); 0-4 named instances whose style names are drawn from the family / style / full-name strings, axis label strings and fresh strings, with and without postscript names, at default and other locations; optional feature code with a stylistic set featureNames block registered under 1-3 language systems (one with a language-specific lookup) and, in two thirds of those, character variants cv01 / cv02 with a feature label and 2-3 parameter labels of which one string repeats across the two features (feature label and the run of parameter label ids are compared with the feature file). Checked: every name id referenced by fvar, STAT and GSUB feature parameters resolves to a non-empty Windows en-US record; id ranges (axes >= 256; instance subfamily 2/17 only at the default location, else 256..32767; postscript >= 256 or 0xFFFF); strings equal the source's axis labels, instance style names, postscript names and feature names; ids 1,2,3,4,5,6,16,17 equal the documented ufo2ft fallback chain in the classes where it is unambiguous; name/fvar/STAT/GSUB identical over 3 rebuilds. non-trivial = variable source with an instance named like the family or style string";
 pub const ASSUMPTIONS: &[&str] = &["the fallback chain is checked when family and style names are present and either both styleMap names are given, or only the styleMap family without a preferred subfamily, or neither styleMap nor preferred names are given (elsewhere implementations differ on which field the RIBBI test looks at)", "vendor id default NONE, no explicit unique id / version string / full name in the source", "axis names are not the lower-case MutatorMath names that fontTools expands"];
